@@ -18,6 +18,7 @@ import (
 	"github.com/syndtr/goleveldb/leveldb"
 	"github.com/syndtr/goleveldb/leveldb/opt"
 	"github.com/syndtr/goleveldb/leveldb/storage"
+	"github.com/syndtr/goleveldb/leveldb/util"
 )
 
 // VerifSim holds the callbacks of the deterministic simulator (build tag "verif").
@@ -365,6 +366,15 @@ func (v *VerifService) GC(table string, force bool) bool {
 // paced by VerifSim.GCLoopTimer); it returns when the server is closed.
 func (v *VerifService) GCLoop() {
 	v.s.gcloop()
+}
+
+// VerifSettle makes a leveldb-backed Rows finish its background work (write buffer flushed, tables
+// compacted), so that what a later iterator finds in memory and what in table files does not
+// depend on the timing of goleveldb's background goroutines. Other engines: no-op.
+func VerifSettle(r Rows) {
+	if lr, ok := r.(*leveldbRows); ok {
+		_ = lr.db.CompactRange(util.Range{})
+	}
 }
 
 // LeakedLocks reports table names whose mutex is held, and whether the server mutex is held.
